@@ -233,12 +233,13 @@ def refused_then_corrected(rng, tier, info):
     for app, param in (("hex", 32), ("hex", 16), ("pwd", 21), ("mnemonic", 24), ("mnemonic", 12), ("wif", 0), ("xprv", 0)):
         bad_p = ["f:%d.0" % param, "d:%d" % param, "q:%d/1" % param, "s:" + sx(str(param)), "f:%d.5" % param, "i:%d" % (param + 1000)]
         bad_i = ["f:0.0", "i:-1", "i:%d" % H, "s:" + sx("0"), "q:0/1"]
-        for _ in range(2 if tier == "quick" else 12):
+        refusals = [(app, "i:%d" % param, bi) for bi in bad_i]
+        if app not in ("wif", "xprv"):
+            refusals += [(app, bp, "i:0") for bp in bad_p]          # EVERY refused parameter form, systematically
+        if tier == "quick":
+            refusals = refusals[len(bad_i) - 2:] if app not in ("wif", "xprv") else refusals[:2]
+        for refused in refusals:
             first = rng.choice([("wif", "i:0", "i:0"), ("hex", "i:64", "i:1"), ("xprv", "i:0", "i:2"), (app, "i:%d" % param, "i:3")])
-            if app in ("wif", "xprv") or rng.random() < 0.4:
-                refused = (app, "i:%d" % param, rng.choice(bad_i))
-            else:
-                refused = (app, rng.choice(bad_p), "i:0")
             seqs.append([first, refused, (app, "i:%d" % param, "i:0"), (app, "i:%d" % param, "i:5"), first])
     for sq in seqs:
         line = "bip85_seq %s %s" % (spec, ";".join(",".join(r) for r in sq))
